@@ -1,11 +1,292 @@
-"""Symbolic-length sequences (filled in by the fold layer, see loops.py)."""
+"""Sequences of unknown length: the pipe algebra (DESIGN 2.5, S-seq).
+
+A symbolic sequence is a *pipe* over a source sequence:  source --filter(pred)--> --stable sort(keys)--> --map(fn)-->.
+pred / keys / fn are pointwise, so a pipe is described completely by their values on one arbitrary ("canonical") element.
+Comprehensions, sorted(), filter and ''.join over pipes are evaluated algebraically:
+
+    [f(x) for x in P if c(x)]      = P with pred /\\ c and map f . map_P
+    sorted(P, key=k)               = P with one more (outer) sort key
+    sep.join(P), len(P), bool(P)   = observables J(sep, P), LEN(P), NE(P): fresh constants shared by all pipes that are
+                                     proved equal (same source; pointwise-equivalent pred and map; order-equivalent keys)
+
+Two pipes are unified only after the solver has proved those pointwise facts for an arbitrary element (pair of elements
+for the sort keys) under the element invariants; each such fact is also emitted as an obligation ('unify:') and
+re-discharged by the back ends.  Congruence of filter / stable sort / map / join under pointwise equivalence, and the
+commutation  filter . sort == sort . filter  for pointwise predicates, are the rules this layer trusts.
+"""
 from __future__ import annotations
+
+import z3
+from typing import Callable, Dict, List, Optional, Tuple
+
+from .values import Unsupported, SStr, SObj, SEnum, EnumVal
+
+
+class SeqSource:
+    def __init__(self, name, elem_builder: Callable[[str], object], inv: Optional[Callable] = None,
+                 pair_inv: Optional[Callable] = None, kind='list'):
+        self.name = name
+        self.elem_builder = elem_builder      # suffix -> symbolic element (fresh z3 constants named name[suffix].*)
+        self.inv = inv                        # element -> z3 Bool / bool
+        self.pair_inv = pair_inv              # (element, element) -> z3 Bool / bool : holds for two elements at different positions
+        self.kind = kind
+        self._elems: Dict[str, object] = {}
+        self.length = z3.Int(f'{name}.len')
+
+    def elem(self, suffix):
+        if suffix not in self._elems:
+            self._elems[suffix] = self.elem_builder(suffix)
+        return self._elems[suffix]
 
 
 class SSeq:
-    """A sequence of unknown length.  `length` is a z3 Int term; elements are described by an element factory
-    (a function index -> symbolic element) so that loops over the sequence are verified through their step
-    function for an arbitrary element (fold rule, DESIGN 2.5)."""
+    """pipe = (source, preds, keys, maps); each of preds/keys/maps is a list of Python callables elem_value -> value,
+    applied in order (a map changes the value later stages see)."""
 
-    def __init__(self, name, length, elem_factory, kind='list', prestate=True):
-        self.name, self.length, self.elem_factory, self.kind, self.prestate = name, length, elem_factory, kind, prestate
+    def __init__(self, src: SeqSource, stages=(), kind='list', prestate=True):
+        self.src = src
+        self.stages: Tuple[Tuple[str, Callable], ...] = tuple(stages)    # ('filter'|'sort'|'map', fn)
+        self.kind = kind
+        self.prestate = prestate
+        self._canon = None
+
+    @property
+    def length(self):
+        raise Unsupported('use len() on a pipe')
+
+    def with_stage(self, kind, fn):
+        return SSeq(self.src, self.stages + ((kind, fn),), 'list', False)
+
+    def is_base(self):
+        return not self.stages
+
+    def eval_at(self, suffix):
+        """(pred: z3 Bool|bool, keys: [value], value) of the pipe at the canonical element `suffix`."""
+        from .interp import _and
+        v = self.src.elem(suffix)
+        pred = True
+        keys = []
+        for kind, fn in self.stages:
+            if kind == 'filter':
+                pred = _and(pred, fn(v))
+            elif kind == 'sort':
+                keys.append(fn(v))
+            else:
+                v = fn(v)
+        return pred, keys, v
+
+
+class PipeTable:
+    """Per-run registry of canonical pipes and their observables."""
+
+    def __init__(self, I):
+        self.I = I
+        self.canon: List[dict] = []     # [{'pipe': SSeq, 'id': n}]
+        self.obs: Dict[tuple, object] = {}
+
+    def canon_id(self, p: SSeq) -> int:
+        if p._canon is not None:
+            return p._canon
+        for entry in self.canon:
+            q = entry['pipe']
+            if q.src is p.src and self.equivalent(p, q):
+                p._canon = entry['id']
+                return p._canon
+        p._canon = len(self.canon)
+        self.canon.append({'pipe': p, 'id': p._canon})
+        return p._canon
+
+    # -- the pointwise proofs ------------------------------------------------------------------------------------------
+    def _inv(self, src: SeqSource, suffix):
+        from .interp import zbool
+        if src.inv is None:
+            return z3.BoolVal(True)
+        r = self.I.truth(src.inv(src.elem(suffix)))
+        return zbool(r)
+
+    def valid(self, hyps, goal, label):
+        """Is (pc /\\ hyps) => goal valid?  Decided in-process with a time limit (needed to continue the run); the same
+        fact is emitted as a 'unify:' obligation for the back ends when it is used."""
+        from .interp import zbool, simp
+        g = simp(zbool(goal)) if not isinstance(goal, bool) else goal
+        if g is True:
+            return True
+        if g is False:
+            return False
+        s = z3.Solver()
+        s.set('timeout', 3000)
+        for c in self.I.pc:
+            s.add(c)
+        for h in hyps:
+            if h is not True:
+                s.add(zbool(h))
+        s.add(z3.Not(g))
+        r = s.check()
+        if r == z3.unsat:
+            self.I.oblige_with(hyps, 'unify', label, g)
+            return True
+        return False
+
+    def equivalent(self, p: SSeq, q: SSeq) -> bool:
+        from .interp import zbool, _and, _iff
+        I = self.I
+        pp, pk, pv = p.eval_at('i')
+        qp, qk, qv = q.eval_at('i')
+        inv_i = self._inv(p.src, 'i')
+        # same filter
+        if not self.valid([inv_i], _iff(pp, qp), f'{p.src.name}:pred'):
+            return False
+        # same mapped value on the kept elements
+        if not self.valid([inv_i, pp], self.value_eq(pv, qv), f'{p.src.name}:map'):
+            return False
+        # order-equivalent sort keys on every pair of kept elements
+        if pk or qk:
+            pp2, pk2, _ = p.eval_at('j')
+            qp2, qk2, _ = q.eval_at('j')
+            inv_j = self._inv(p.src, 'j')
+            hy = [inv_i, inv_j, pp, pp2]
+            if p.src.pair_inv is not None:
+                hy.append(I.truth(p.src.pair_inv(p.src.elem('i'), p.src.elem('j'))))
+            lt_p = self.lex_lt(pk, pk2)
+            lt_q = self.lex_lt(qk, qk2)
+            if not self.valid(hy, _iff(lt_p, lt_q), f'{p.src.name}:order'):
+                return False
+        return True
+
+    def value_eq(self, a, b):
+        I = self.I
+        if a is b:
+            return True
+        try:
+            return I.truth(I.equals(a, b)) if not (isinstance(a, SObj) and isinstance(b, SObj)) else (a is b)
+        except Unsupported:
+            return False
+
+    def lex_lt(self, ks1, ks2):
+        """strict 'comes before' of the stacked sort keys: the LAST sort applied is the most significant; ties fall back
+        to earlier sorts (stable), finally to source order (not a key)."""
+        from .interp import _and, _or
+        import ast
+        I = self.I
+        acc = False
+        for k1, k2 in zip(ks1, ks2):      # innermost first
+            lt = I.truth(I.order(ast.Lt(), k1, k2))
+            eq = I.truth(I.equals(k1, k2))
+            acc = _or(lt, _and(eq, acc))
+        return acc
+
+    # -- observables ---------------------------------------------------------------------------------------------------
+    def observable(self, p: SSeq, what: str, extra=None):
+        from .interp import zbool
+        I = self.I
+        cid = self.canon_id(p)
+        if what in ('ne', 'len'):
+            # emptiness and length do not depend on sort keys or maps: canonical id of the filter-only pipe
+            f = SSeq(p.src, tuple(st for st in p.stages if st[0] == 'filter' or st[0] == 'map'), 'list', False)
+            # maps matter only through later filters; keep them
+            cid = self.canon_id(f)
+        key = (cid, what, extra)
+        if key in self.obs:
+            return self.obs[key]
+        base = f'{p.src.name}~{cid}'
+        if what == 'ne':
+            ln = self.observable(p, 'len')
+            v = ln > 0
+        elif what == 'len':
+            v = z3.Int(f'len({base})')
+            I.assume(v >= 0)
+            if not [st for st in p.stages if st[0] == 'filter']:
+                I.assume(v == p.src.length)
+            else:
+                I.assume(v <= p.src.length)
+        elif what == 'join':
+            v = z3.String(f'join({extra!r},{base})')
+            ne = self.observable(p, 'ne')
+            I.assume(z3.Implies(z3.Not(ne), v == z3.StringVal('')))
+            # if every kept element maps to a non-empty string, a non-empty pipe joins to a non-empty string
+            pp, _, pv = p.eval_at('i')
+            from .values import str_len
+            try:
+                nonempty = I.truth(I.compare_len_positive(pv))
+                if self.valid([self._inv(p.src, 'i'), pp], nonempty, f'{p.src.name}:nonempty-elements'):
+                    I.assume(z3.Implies(ne, z3.Length(v) > 0))
+            except Unsupported:
+                pass
+        else:
+            raise ValueError(what)
+        self.obs[key] = v
+        return v
+
+
+    # -- folds -----------------------------------------------------------------------------------------------------------
+    def fold(self, pipe: SSeq, accs, init, acc_syms, step, pred):
+        """observables for the accumulators after  for x in pipe: acc = step(acc, x)"""
+        from .interp import zbool, simp, _and, _iff
+        I = self.I
+        if not hasattr(self, 'folds'):
+            self.folds = []
+        # effective step on a source element: unchanged when the element is filtered out
+        entry = None
+        for f in self.folds:
+            if f['pipe'].src is not pipe.src or len(f['accs']) != len(accs):
+                continue
+            # positional correspondence of the accumulators (names may differ between code and specification)
+            ren = dict(zip(accs, f['accs']))
+            f_init = {n: f['init'][ren[n]] for n in accs}
+            f_step = {n: f['step'][ren[n]] for n in accs}
+            f_res = {n: f['res'][ren[n]] for n in accs}
+            f = dict(f, init=f_init, step=f_step, res=f_res)
+            if not self._same_order(pipe, f['pipe']):
+                continue
+            ok = True
+            hy = [self._inv(pipe.src, 'i')]
+            for n in accs:
+                if not self.valid([], self.value_eq(init[n], f['init'][n]), f'{pipe.src.name}:fold-init'):
+                    ok = False
+                    break
+            if not ok:
+                continue
+            # same filter and same step (the accumulator symbols are shared by name)
+            if not self.valid(hy, _iff(pred, f['pred']), f'{pipe.src.name}:fold-pred'):
+                continue
+            for n in accs:
+                if not self.valid(hy + [pred], self.value_eq(step[n], f['step'][n]), f'{pipe.src.name}:fold-step'):
+                    ok = False
+                    break
+            if ok:
+                entry = f
+                break
+        if entry is None:
+            fid = len(self.folds)
+            res = {}
+            for n in accs:
+                v = init[n]
+                nm = f'fold({pipe.src.name}#{fid}).{n}'
+                if isinstance(v, (str, SStr)):
+                    res[n] = SStr([('sym', z3.String(nm))])
+                elif isinstance(v, bool) or isinstance(v, z3.BoolRef):
+                    res[n] = z3.Bool(nm)
+                else:
+                    res[n] = z3.Int(nm)
+            entry = {'pipe': pipe, 'accs': accs, 'init': init, 'step': step, 'pred': pred, 'res': res}
+            self.folds.append(entry)
+            # an empty pipe leaves the accumulators at their initial values
+            ne = self.observable(pipe, 'ne')
+            for n in accs:
+                eq = self.value_eq(res[n], init[n])
+                if eq is not True and eq is not False:
+                    I.assume(z3.Implies(z3.Not(ne), zbool(eq)))
+        return entry['res']
+
+    def _same_order(self, p: SSeq, q: SSeq) -> bool:
+        from .interp import _iff
+        _, pk, _ = p.eval_at('i')
+        _, qk, _ = q.eval_at('i')
+        if not pk and not qk:
+            return True
+        pp, pk, _ = p.eval_at('i')
+        pp2, pk2, _ = p.eval_at('j')
+        _, qk, _ = q.eval_at('i')
+        _, qk2, _ = q.eval_at('j')
+        hy = [self._inv(p.src, 'i'), self._inv(p.src, 'j'), pp, pp2]
+        return self.valid(hy, _iff(self.lex_lt(pk, pk2), self.lex_lt(qk, qk2)), f'{p.src.name}:fold-order')
